@@ -52,6 +52,101 @@ def midPure : List CmpArm → Bool
   | [_] => true
   | .mk _ e :: r => e.isPure && midPure r
 
+/-! ### names occurring in a piece of syntax (read, bound by `:=`, or bound as a target) -/
+mutual
+def Expr.vars : Expr → List String
+  | .const _ => []
+  | .leaf _ => []
+  | .name x => [x]
+  | .binop _ l r => l.vars ++ r.vars
+  | .unary _ e => e.vars
+  | .boolop _ es => varsList es
+  | .compare l rest => l.vars ++ varsArms rest
+  | .ifexp c t e => c.vars ++ (t.vars ++ e.vars)
+  | .subscript v i => v.vars ++ i.vars
+  | .slice lo hi st => varsOpt lo ++ (varsOpt hi ++ varsOpt st)
+  | .attr v _ => v.vars
+  | .call f args kws => f.vars ++ (varsElts args ++ varsKws kws)
+  | .seq _ es => varsElts es
+  | .dict kvs => varsPairs kvs
+  | .fstr parts => varsParts parts
+  | .named x e => x :: e.vars
+  | .comp _ elt gens => elt.vars ++ varsGens gens
+  | .dictcomp k v gens => k.vars ++ (v.vars ++ varsGens gens)
+def varsOpt : Option Expr → List String
+  | none => []
+  | some e => e.vars
+def varsList : List Expr → List String
+  | [] => []
+  | e :: es => e.vars ++ varsList es
+def varsArms : List CmpArm → List String
+  | [] => []
+  | .mk _ e :: r => e.vars ++ varsArms r
+def varsElts : List Elt → List String
+  | [] => []
+  | .plain e :: r => e.vars ++ varsElts r
+  | .star e :: r => e.vars ++ varsElts r
+def varsKws : List Kw → List String
+  | [] => []
+  | .named _ e :: r => e.vars ++ varsKws r
+  | .splat e :: r => e.vars ++ varsKws r
+def varsPairs : List DictArm → List String
+  | [] => []
+  | .kv k v :: r => k.vars ++ (v.vars ++ varsPairs r)
+  | .splat e :: r => e.vars ++ varsPairs r
+def varsParts : List FPart → List String
+  | [] => []
+  | .lit _ :: r => varsParts r
+  | .fmt e _ spec :: r => e.vars ++ (varsOpt spec ++ varsParts r)
+def varsGens : List Gen → List String
+  | [] => []
+  | .mk t it ifs :: r => t.vars ++ (it.vars ++ (varsList ifs ++ varsGens r))
+/-- every name in a target: the names it binds and those of its sub-expressions -/
+def Target.vars : Target → List String
+  | .name x => [x]
+  | .sub v i => v.vars ++ i.vars
+  | .attr v _ => v.vars
+  | .tup _ before star after => varsTargets before ++ ((match star with | some x => [x] | none => []) ++ varsTargets after)
+def varsTargets : List Target → List String
+  | [] => []
+  | t :: ts => t.vars ++ varsTargets ts
+end
+
+mutual
+/-- the names in the sub-expressions of a target (subscript / attribute bases and indices), not the names it binds -/
+def Target.exprVars : Target → List String
+  | .name _ => []
+  | .sub v i => v.vars ++ i.vars
+  | .attr v _ => v.vars
+  | .tup _ before _ after => exprVarsL before ++ exprVarsL after
+def exprVarsL : List Target → List String
+  | [] => []
+  | t :: ts => t.exprVars ++ exprVarsL ts
+end
+
+/-- none of the names `ns` is in `U` -/
+def avoids (U : List String) (ns : List String) : Bool := ns.all (fun x => !U.contains x)
+
+/-- `U` without the names `ns` -/
+def minus (U ns : List String) : List String := U.filter (fun x => !ns.contains x)
+
+/-- `U` = the loop variables that may still be unbound when the clauses `gs` start.  No clause mentions a loop variable
+that may be unbound when the clause is evaluated: the iterable and the target's sub-expressions of a generator are
+evaluated before its target is bound, its `if` clauses after. -/
+def earlyFree (U : List String) : List Gen → Bool
+  | [] => true
+  | .mk t it ifs :: gs =>
+    avoids U it.vars && avoids U t.exprVars && avoids (minus U t.names) (varsList ifs) && earlyFree (minus U t.names) gs
+
+/-- a comprehension reads no loop variable before the generator that binds it has run (the FIRST iterable is evaluated
+in the enclosing scope and may use any name) -/
+def compEarlyFree : List Gen → Bool
+  | [] => true
+  | .mk t _ ifs :: gs =>
+    avoids (t.names ++ gensNames gs) t.exprVars &&
+    avoids (minus (t.names ++ gensNames gs) t.names) (varsList ifs) &&
+    earlyFree (minus (t.names ++ gensNames gs) t.names) gs
+
 mutual
 def Conf (cfg : Cfg) : Expr → Bool
   | .const _ => true
@@ -74,6 +169,9 @@ def Conf (cfg : Cfg) : Expr → Bool
   | .dict kvs => ConfPairs cfg kvs
   | .fstr parts => ConfParts cfg parts
   | .named _ e => Conf cfg e
+  | .comp _ elt gens => Conf cfg elt && ConfGens cfg gens && !gens.isEmpty && (cfg.compFresh || compEarlyFree gens)
+  | .dictcomp k v gens =>
+    Conf cfg k && Conf cfg v && ConfGens cfg gens && !gens.isEmpty && (cfg.compFresh || compEarlyFree gens)
 def ConfOpt (cfg : Cfg) : Option Expr → Bool
   | none => true
   | some e => Conf cfg e
@@ -99,9 +197,9 @@ def ConfParts (cfg : Cfg) : List FPart → Bool
   | [] => true
   | .lit _ :: r => ConfParts cfg r
   | .fmt e conv spec :: r => Conf cfg e && ConfOpt cfg spec && (cfg.fstrConversion || conv.isNone) && ConfParts cfg r
-end
-
-mutual
+def ConfGens (cfg : Cfg) : List Gen → Bool
+  | [] => true
+  | .mk t it ifs :: r => ConfT cfg t && Conf cfg it && ConfList cfg ifs && ConfGens cfg r
 def ConfT (cfg : Cfg) : Target → Bool
   | .name _ => true
   | .sub v i => Conf cfg v && Conf cfg i
